@@ -123,6 +123,20 @@ func verifyFunctions(P *Program, C *Contracts, keys []string, opt solveOpts, fil
 		}
 	}
 	wg.Wait()
+	for _, fr := range results {
+		if fr.Exec == nil || fr.Exec.softErr == nil || fr.Err != nil {
+			continue
+		}
+		failed := false
+		for _, o := range fr.Obls {
+			if o.Result == "sat" {
+				failed = true
+			}
+		}
+		if !failed {
+			fr.Err = fr.Exec.softErr
+		}
+	}
 	if os.Getenv("SONICVC_SLOW") != "" {
 		fmt.Printf("rendering queries: %.1fs\n", PrepareSecs)
 	}
